@@ -510,7 +510,8 @@ def _finalizer_dask_op(
     if user_kw is None:
         user_kw = {}
 
-    _root = data_substream
+    # work on a copy: task has to give the same result when it is run again
+    _root = data_substream._clone()
     hdr_bytes, footer_bytes = [
         None if op is None else op(data_substream.observed, **user_kw)
         for op in [mk_header, mk_footer]
